@@ -89,6 +89,18 @@ CHECKS = {
              "serialisability.",
         note="Trusted: as C01. Numeric types outside the stated universe (Decimal, Fraction, numpy) are not generated.",
         design="4 C03"),
+    "C14": dict(
+        technique="Coq theorems on the model of Engine.subscribe + event-by-event correspondence on the real engine",
+        text="Proved for every finite event sequence of the source: the responses are exactly the map of "
+             "`execute against this event as root value` over the events (one per event, in order, pointwise "
+             "independent, so a field failure inside one response cannot end or alter the stream); a request failing "
+             "operation selection or variable coercion yields a single errors-only response and no stream. The check "
+             "consumes the real async stream event by event for generated subscription documents x event sequences "
+             "(well-formed payloads, nulls, garbage), compares each response with the engine's own execute("
+             "initial_value=event), with the implementation model, with the specification executor, and checks the "
+             "source is started once with the model's coerced arguments. PARTIAL: aclose/cancellation are runtime.",
+        note="Trusted: as C01; the async-generator protocol is outside the model.",
+        design="4 C14"),
 }
 
 NOT_YET = {
